@@ -13,6 +13,7 @@
 //!   sst[v] ID PATCH | QUERIES          Sst::new on the patched bytes, metadata, forward walk, backward
 //!                                      walk, load per query  KEYHEX:TS
 //!   log[v] ID PATCH                    LogIterator drain, log_to_builder (SstBuilder), log_to_setsum
+//!   logi ID PATCH                      LogIterator drain and log_to_setsum only
 //!   mani[v] ID PATCH                   ManifestIterator collect, Manifest::open state
 //!   blk[v] ID PATCH | QUERIES          Block::new on the patched bytes, forward / backward walk, Block::load
 //!
@@ -286,7 +287,7 @@ fn run(st: &mut St, line: &str, out: &Mutex<Vec<String>>) {
     };
     let h: Vec<&str> = head.split_whitespace().collect();
     let cmd = h[0];
-    let verbose = cmd.ends_with('v');
+    let verbose = cmd.ends_with('v') && cmd != "logi";
     st.serial += 1;
     match cmd {
         "def" => {
@@ -456,7 +457,7 @@ fn run(st: &mut St, line: &str, out: &Mutex<Vec<String>>) {
                 push(format!("g{}", get_str(r, tomb)));
             }
         }
-        "log" | "logv" => {
+        "log" | "logv" | "logi" => {
             let bytes = apply_patch(&st.reg[h[1]], h[2]);
             let path = st.dir.join("cur.log");
             std::fs::write(&path, &bytes).expect("write");
@@ -478,6 +479,20 @@ fn run(st: &mut St, line: &str, out: &Mutex<Vec<String>>) {
                     }
                 },
                 Err(e) => push(format!("it:open!{}", sst_code(&e))),
+            }
+            // a damaged size field makes the reader allocate and zero up to TABLE_FULL_SIZE bytes; the
+            // two consumers below run the same LogIterator, so they are skipped after such a drain
+            if MAXREQ.load(Ordering::Relaxed) > (64usize << 20) {
+                push("ltb:skipped lts:skipped".to_string());
+                return;
+            }
+            if cmd == "logi" {
+                // iterator and setsum only (for the 1 MiB logs)
+                match sst::log::log_to_setsum(lo, &path) {
+                    Ok(s) => push(format!("lts:{}", s.hexdigest())),
+                    Err(e) => push(format!("lts!{}", sst_code(&e))),
+                }
+                return;
             }
             // log_to_builder into a real SstBuilder, then the table is walked
             let sp = st.dir.join("ltb.sst");
